@@ -219,7 +219,36 @@ fn value_space(ctx: &Ctx, rep: &mut Report, n: usize, shifts: usize, relabels: b
     rep.add_space(&format!("{}H: value under {} shift(s){}", n, shifts, if relabels { " and all 24 suit relabellings" } else { "" }), &acc, t0, "relational: crate value before vs after");
 }
 
+fn probe_items() -> Vec<Vec<u32>> {
+    // six- and seven-card hands that are flushes / straight flushes in each suit, and their off-suit neighbours
+    let mut v = Vec::new();
+    for s in 0..4u8 {
+        for top in [12u8, 11, 9, 6] {
+            let six: Vec<u32> = (0..6).map(|i| Card::new(top - i, s).word()).collect();
+            let mut seven = six.clone();
+            seven.push(Card::new(0, (s + 1) % 4).word());
+            let mut broken = six.clone();
+            broken[5] = Card::new(top - 5, (s + 2) % 4).word();
+            v.push(six);
+            v.push(seven);
+            v.push(broken);
+        }
+    }
+    v
+}
+
 pub fn run(ctx: &Ctx, rep: &mut Report) {
+    if ctx.probe {
+        let items = probe_items();
+        super::probe_body(rep, items.len(), &|i| {
+            let w = &items[i];
+            confirm(judge, Case::w32(&format!("{}.shift_value", AnyHand::size_name(w.len())), w)).map(|mut v| {
+                v.class = format!("cold-start:{}", v.class);
+                v
+            })
+        });
+        return;
+    }
     let thorough = ctx.tier.thorough();
     // card clause
     {
@@ -364,6 +393,51 @@ pub fn run(ctx: &Ctx, rep: &mut Report) {
             }
         }
         super::history2(rep, judge, &items);
+    }
+    // value clause on two small sub-decks: every 6/7-card hand x the covering family of slot orders (P6 / P7: every pair
+    // of cards meets every pair of slots) x all 24 suit relabellings (a suit-position shortcut can commute with the
+    // cyclic shift and still depend on which suit sits where)
+    for n in [6usize, 7] {
+        let t0 = Instant::now();
+        let orders: Vec<Vec<usize>> = if n == 6 { crate::engine::enumerate::p6().into_iter().map(|p| p.to_vec()).collect() } else { crate::engine::enumerate::p7().into_iter().map(|p| p.to_vec()).collect() };
+        let perms = suit_perms();
+        let mut acc_total = Acc::new(1);
+        for (_name, cards) in super::c02::small_sub_decks() {
+            let hands = crate::engine::enumerate::combos(cards.len(), n);
+            let accs = par_parts(hands.len(), |hi| {
+                let mut acc = Acc::new(1);
+                let base: Vec<u32> = hands[hi].iter().map(|i| cards[*i].word()).collect();
+                let mut w = vec![0u32; n];
+                for ord in &orders {
+                    for i in 0..n {
+                        w[ord[i]] = base[i];
+                    }
+                    let v0 = guard(|| AnyHand::from_words(&w).value().unwrap());
+                    for (pn, p) in perms.iter().enumerate().skip(1) {
+                        acc.cases += 1;
+                        acc.calls += 1;
+                        acc.nontrivial += 1;
+                        let r = relabel(&w, p).unwrap();
+                        let v = guard(|| AnyHand::from_words(&r).value().unwrap());
+                        if v.is_err() || v != v0 {
+                            let mut ws = w.clone();
+                            ws.push(pn as u32);
+                            match confirm(judge, Case::w32(&format!("{}.relabel_value", AnyHand::size_name(n)), &ws)) {
+                                Some(v) => acc.violate(v),
+                                None => super::unreproduced("C08 sub-deck relabel mismatch not reproduced"),
+                            }
+                        }
+                    }
+                }
+                acc
+            });
+            acc_total.merge(Acc::merged(accs));
+        }
+        rep.add_space(&format!("value under all 24 suit relabellings: every {}-card hand of two 12-card sub-decks x {} covering slot orders", n, orders.len()), &acc_total, t0, "relational: crate value before vs after relabelling, in slot orders that put every card pair on every slot pair");
+    }
+    // schedule sample: threads making their first calls at the same moment in fresh processes (supplementary, see mod.rs)
+    if !ctx.child || !ctx.lean {
+        super::cold_start_probe(ctx, rep, if thorough { 24 } else { 8 });
     }
     // value clause
     value_space(ctx, rep, 5, 3, true);
